@@ -437,6 +437,10 @@ def binop(I, node, op, l, r):
             pass
         elif isinstance(op, (ast.FloorDiv, ast.Mod, ast.Sub, ast.Add)):
             out.tags["dimexpr"] = (opn, l, r)
+            if isinstance(op, (ast.Add, ast.Sub)):
+                for x_, y_ in ((l, r), (r, l)):
+                    if x_.tag("count_how") and y_.known:
+                        out.tags["count_how"] = x_.tag("count_how")      # count ± constant: still that rounding of the quotient
             # concrete small extents (#k) support ± constants: #2 - 1 = 1
             ka = _conc(dl) if dl is not None else (l.const if (l.known and isinstance(l.const, int)) else None)
             kb = _conc(dr) if dr is not None else (r.const if (r.known and isinstance(r.const, int)) else None)
@@ -496,10 +500,15 @@ def binop(I, node, op, l, r):
             for arrv, sc in ((l, r), (r, l)):
                 if sc.shape is not None and sc.shape.rank == 0 and not (arrv.shape is not None and arrv.shape.rank == 0):
                     out.tags["scalar_factor"] = (sc.frame, sc.unit)
-        for pt in (l, r):
+        for pt, other in ((l, r), (r, l)):
             if pt.tag("point"):
-                I.type_error(node, "QTY", "a coordinate array (positions on the domain axis) is used as a multiplicative weight; "
-                                          "only differences of positions (steps) are measures", sub="point")
+                scalar_const = _is_lit(other) or other.tag("extconst") or other.tag("physical_constant") or (
+                    other.shape is not None and other.shape.rank == 0 and not (other.flat().data - pt.flat().data))
+                if scalar_const:
+                    out.tags["point"] = True         # a rescaled coordinate array (unit conversion) is still a coordinate array
+                elif other.tag("kind") == "ndarray" or other.frame is not None or (isinstance(other.unit, dict) and other.unit):
+                    I.type_error(node, "QTY", "a coordinate array (positions on the domain axis) is used as a multiplicative weight; "
+                                              "only differences of positions (steps) are measures", sub="point")
     elif isinstance(op, ast.Div):
         out.unit = umul(l.unit, r.unit, -1)
         out.tags["floating"] = True
@@ -1145,6 +1154,8 @@ def call_builtin(I, e, name, args, kws):
             out.shape = S() if name != "abs" else a0.shape
             if name == "abs":
                 out.sign = "NONNEG"
+            if name == "round" and len(args) == 1:
+                out.tags["rounded"] = "nearest"
             if name == "int":
                 out.tags["kind"] = "int"
                 out.shp = out.shp | out.data
@@ -1153,6 +1164,8 @@ def call_builtin(I, e, name, args, kws):
                 if how is None and a0.tag("floating"):
                     how = "nearest" if a0.tag("plus_half") else "trunc"      # int(x) truncates; int(x + 0.5) rounds half up (x ≥ 0)
                 I.emit("int_cast", e, arg=a0, how=how)
+                if how is not None:
+                    out.tags["count_how"] = how
             if a0.known and _is_lit(a0):
                 try:
                     out.const = {"int": int, "float": float, "bool": bool, "round": round, "abs": abs}[name](a0.const)
